@@ -465,6 +465,26 @@ theorem C18_distinct_node_and_random_ids (P : Prims) (style : Style) (seed : Byt
    fun hne => (C18_distinct_by_block P style seed net hinj _ _
      (C18_32_byte_ids_distinct_blocks r r' hr hr' hne) st₁ st₂).2⟩
 
+/-- **C18_history_distinct_node_ids.** the clause "different channel ids give different keys" at the level of
+histories: after any op history of a Native or Ldk node — and even across two *different* histories of the same seed —
+two channels whose ids were built from different `(peer_id, dbid)` requests hold different key material (and hence, by
+`C18_secrets_stable`'s function `keysOf`, are different functions of their commitment numbers), under the
+block-separation hypothesis alone. -/
+theorem C18_history_distinct_node_ids (P : Prims) (style : Style) (hs : style = .native ∨ style = .ldk)
+    (seed : Bytes) (net : Net)
+    (hinj : ∀ a b,
+      applyMask (maskOf style) (P.hkdf32 (channelSeedBase P seed) infoPerPeerSeed a)
+        = applyMask (maskOf style) (P.hkdf32 (channelSeedBase P seed) infoPerPeerSeed b) →
+      hmacKeyBlock a = hmacKeyBlock b)
+    (ops₁ ops₂ : List Op) (c₁ c₂ : Chan)
+    (h₁ : c₁ ∈ (run P style seed net ops₁).chans) (h₂ : c₂ ∈ (run P style seed net ops₂).chans)
+    (p p' : Bytes) (o o' : Nat) (hp : p.length = 33) (hp' : p'.length = 33) (ho : o < 2 ^ 64) (ho' : o' < 2 ^ 64)
+    (hid₁ : c₁.id = chanIdOfPeerOid p o) (hid₂ : c₂.id = chanIdOfPeerOid p' o') (hne : ¬ (p = p' ∧ o = o')) :
+    c₁.keys ≠ c₂.keys := by
+  rw [C18_stateless_history P style hs seed net ops₁ c₁ h₁, C18_stateless_history P style hs seed net ops₂ c₂ h₂,
+    hid₁, hid₂]
+  exact C18_distinct_node_ids P style seed net hinj p p' o o' hp hp' ho ho' hne KMState.fresh KMState.fresh
+
 /-! ## Non-vacuity -/
 
 /-- the block-separation hypothesis of `C18_distinct_by_block` is satisfiable (an "HKDF" that returns the block),
@@ -476,6 +496,21 @@ example : (∀ a b : Bytes, applyMask (maskOf .native) (hmacKeyBlock a) = applyM
   refine ⟨?_, by decide⟩
   intro a b h
   simpa [maskOf, nativeKeysIdMask, applyMask] using h
+
+/-- `C18_history_distinct_node_ids` is not vacuous: its hypothesis holds for `witnessPrims` (an "HKDF" that returns its
+salt), and a history with a restart holds two channels of one peer with different dbids -/
+example : ∀ a b : Bytes,
+    applyMask (maskOf .native) (witnessPrims.hkdf32 (channelSeedBase witnessPrims [5]) infoPerPeerSeed a)
+      = applyMask (maskOf .native) (witnessPrims.hkdf32 (channelSeedBase witnessPrims [5]) infoPerPeerSeed b) →
+    hmacKeyBlock a = hmacKeyBlock b := by
+  intro a b h
+  have : a = b := by simpa [maskOf, nativeKeysIdMask, applyMask, witnessPrims] using h
+  rw [this]
+
+example : ((run witnessPrims .native [5] .testnet
+      [.newChan (chanIdOfPeerOid (List.replicate 33 2) 1), .newChan (chanIdOfPeerOid (List.replicate 33 2) 2), .restart]).chans.map
+        (fun c => c.keys.keysId))
+    = [chanIdOfPeerOid (List.replicate 33 2) 1, chanIdOfPeerOid (List.replicate 33 2) 2] := by decide
 
 example : chanIdOfPeerOid [1, 2, 3] 258 = [1, 2, 3, 2, 1, 0, 0, 0, 0, 0, 0] ∧ chanIdOid [1, 2, 3, 2, 1, 0, 0, 0, 0, 0, 0] = some 258
     ∧ chanIdOid [1, 2, 3] = none ∧ chanIdLdkKeysId [1, 2, 3] = none := by decide
